@@ -22,7 +22,7 @@ Open Scope Z_scope.
 
 (* ---------------------------------------------------------------------------------- *)
 (* constants (c/tskit/core.h): re-read from the source on every run by
-   translator/facts_c13.py -> Gen/Generated.v (names c13_*)                             *)
+   translator/facts_c13.py -> Gen/Generated.v (names prefixed c13_)                  *)
 Definition TSK_MAX_ID : Z := c13_tsk_max_id.               (* INT32_MAX - 1 *)
 Definition TSK_MAX_SIZE : Z := 18446744073709551615.       (* UINT64_MAX *)
 Definition SIZE_MOD : Z := 18446744073709551616.
